@@ -9,7 +9,7 @@ is independent of how the per-scenario runner threads of HybridRunner are interl
 import copy
 import random
 
-from sim.core import EventLog, RunResult, derive_seed
+from sim.core import EventLog, RunResult, derive_seed, HarnessError
 from sim import patches
 from sim.threads import Scheduler, make_policy, Deadlock
 from checks.common import shrink_list, shrink_sched
@@ -25,7 +25,7 @@ INTERLEAVING_MEASURE = "distinct sequences of (task, function) over entries into
 RULE = ("a run = 1-3 ABM scenarios (integer start/stop incl. negative and zero, dt in {1,0.5,0.25,0.2,0.1}, populations "
         "0-8 of two types, create/delete/state changes inside the round hooks, with/without data collection) executed "
         "as a whole Model.run, as externally driven scheduler.run_step / Model.run_step calls, or through "
-        "bptk.run_scenarios whose HybridRunner threads are pre-empted at line granularity; non-trivial = the run has "
+        "bptk.run_scenarios (2-3, sometimes 5-10 scenarios in one call) whose HybridRunner threads are pre-empted at line granularity; some runs are cancelled from inside (scheduler.running = False in a hook or an act): the step is still completed; non-trivial = the run has "
         ">= 2 steps and (dt != 1 or a population change or >= 2 interleaved scenario threads); distinct = distinct event-log digest")
 REAL = ["BPTK_Py.modeling.simultaneousScheduler.SimultaneousScheduler (run, run_step)", "BPTK_Py.modeling.model.Model (run, run_step, registry)",
         "BPTK_Py.modeling.dataCollector.DataCollector", "BPTK_Py.scenariorunners.hybrid_runner.HybridRunner (one thread per scenario)",
@@ -35,7 +35,7 @@ STUB = ["choice of the running scenario thread (baton scheduler, line events in 
 ASSUMPTIONS = ["population changes in the two round hooks, plus deletions from inside act of the acting agent itself or of an agent created before it (both have already acted), and creations from inside act: the newcomer is a live agent and is expected to handle and act last in that very step, as the pinned tree does",
                "harness subclasses (models/abm_agents.py) run atomically between pre-emption points"]
 FAULT_KINDS = ["preemption", "population_change_in_hook", "agent_deleted_inside_act"]
-PROBES = ["class_path_manager_under_schedules", "unhandled_event_in_front_of_a_handled_one", "session_over_abm_managers", "session_over_several_abm_managers", "progress_widget", "model_run_again_with_other_run_spec", "deletion_inside_act", "creation_inside_act", "zero_stop_time", "negative_start", "decimal_dt", "empty_population", "collect_off", "threads_interleaved", "driven_steps"]
+PROBES = ["run_cancelled_from_inside", "many_scenario_threads", "class_path_manager_under_schedules", "unhandled_event_in_front_of_a_handled_one", "session_over_abm_managers", "session_over_several_abm_managers", "progress_widget", "model_run_again_with_other_run_spec", "deletion_inside_act", "creation_inside_act", "zero_stop_time", "negative_start", "decimal_dt", "empty_population", "collect_off", "threads_interleaved", "driven_steps"]
 EXHAUSTIVE = {"quick": False, "thorough": False}
 
 
@@ -77,7 +77,10 @@ def generate(spec):
         return {"property": PROPERTY, "mode": mode, "collect": True, "scenarios": scs, "sched": None, "widget": False}
     collect = rng.random() < 0.7
     if mode == "bptk_threads":
-        scs = [W.gen_scenario(rng, small=True, delayed=rng.random() < 0.6) for _ in range(rng.choice([2, 2, 3]))]
+        nsc = rng.choice([2, 2, 3])
+        if rng.random() < 0.15:
+            nsc = rng.choice([5, 6, 9, 10])         # one run_scenarios call over many not-yet-run scenarios: one runner thread each
+        scs = [W.gen_scenario(rng, small=True, delayed=rng.random() < 0.6) for _ in range(nsc)]
         collect = True
         r = rng.random()
         if r < 0.6:
@@ -95,10 +98,30 @@ def generate(spec):
             d2 = rng.choice([d for d in W.DTS if d != scs[0]["dt"]])
             s2 = rng.choice([0, 1, 2])
             scs[0]["second"] = {"start": s2, "stop": s2 + rng.choice([0, 1, 2]), "dt": d2, "collect": rng.random() < 0.5}
+    if mode in ("run", "scheduler_steps", "bptk_threads") and rng.random() < 0.15:
+        # the run is cancelled from inside (scheduler.running = False in a round hook or in an agent's act): the step in which
+        # that happens is still a step - everybody acts, end_round runs, statistics are recorded; a whole run ends after it,
+        # externally driven steps are executed as long as the driver asks for them
+        sc = rng.choice(scs)
+        nsteps = (sc["stop"] - sc["start"] + 1) * round(1 / sc["dt"])
+        k = rng.randrange(1, nsteps + 1)
+        where = rng.choice(["begin", "end", "act"])
+        if where == "act" and sum(c for _, c in sc["init"]) > 0:
+            sc["acts"] = list(sc.get("acts", ())) + [{"k": k, "by": rng.randrange(0, sum(c for _, c in sc["init"])), "op": "stop_run"}]
+        else:
+            sc["pop"] = list(sc["pop"]) + [{"k": k, "where": "begin" if where == "act" else where, "op": "stop_run"}]
     # with the progress widget (Model.run(show_progress_widget=True) / run_scenarios(progress_bar=True)) a run is the same run
     widget = mode in ("run", "run_twice", "bptk_threads") and rng.random() < 0.3
     return {"property": PROPERTY, "mode": mode, "collect": collect, "scenarios": scs, "sched": sched, "widget": widget,
             "class_path": mode == "bptk_threads" and rng.random() < 0.5}
+
+
+def _expected(*a, **kw):
+    """the oracle's own code runs inside the try that catches what the RUN raises: keep its errors apart"""
+    try:
+        return W.expected_calls(*a, **kw)
+    except Exception as e:
+        raise HarnessError("expected_calls failed: %s: %s" % (type(e).__name__, e))
 
 
 def _cmp(res, name, got, exp, extra):
@@ -242,6 +265,10 @@ def execute(case):
                 res.probe("creation_inside_act")
     if not collect:
         res.probe("collect_off")
+    if any(x.get("op") == "stop_run" for sc in scs for x in list(sc["pop"]) + list(sc.get("acts", ()))):
+        res.probe("run_cancelled_from_inside")
+    if len(scs) >= 5:
+        res.probe("many_scenario_threads")
     if mode == "bptk_session":
         _execute_session(case, res, log)
         res.digest = log.digest()
@@ -255,11 +282,11 @@ def execute(case):
             if mode == "run":
                 with _quiet():
                     m.run(show_progress_widget=widget, collect_data=collect)
-                exp = W.expected_calls(sc, collect)
+                exp = _expected(sc, collect)
             elif mode == "run_twice":
                 res.probe("model_run_again_with_other_run_spec")
                 m.run(collect_data=collect)
-                exp1 = W.expected_calls(sc, collect)
+                exp1 = _expected(sc, collect)
                 if m.world.calls != exp1:
                     exp = exp1
                 else:
@@ -271,19 +298,21 @@ def execute(case):
                     with _quiet():
                         m.run(show_progress_widget=widget, collect_data=collect)
                     sc = {**sc, "start": s2["start"], "stop": s2["stop"], "dt": s2["dt"]}
-                    exp = W.expected_calls(sc, collect, sh=sh1, k0=k1, with_hooks=False)
+                    exp = _expected(sc, collect, sh=sh1, k0=k1, with_hooks=False)
                     spr = round(1 / sc["dt"])
             elif mode == "scheduler_steps":
                 res.probe("driven_steps")
                 for r in range(sc["start"], sc["stop"] + 1):
                     for s in range(spr):
                         m.scheduler.run_step(m, r, s, None, collect)
-                exp = W.expected_calls(sc, collect)
+                exp = _expected(sc, collect, whole_run=False)
             else:
                 res.probe("driven_steps")
                 for s in range(spr):
                     m.run_step(s, collect_data=collect)
-                exp = W.expected_calls(sc, collect)
+                exp = _expected(sc, collect)
+        except HarnessError:
+            raise
         except Exception as e:
             res.violate("C12.run-raised", {"mode": mode, "exception": type(e).__name__, "message": str(e)[:100],
                                            "start": sc["start"], "stop": sc["stop"], "dt": sc["dt"]})
